@@ -106,6 +106,8 @@ let () =
            let len = List.length before in
            let expect =
              match op with
+             | ["push"; cp] -> Some (Some (s_push before (n_of_string cp)))
+             | ["insert"; i; cp] -> (match s_insert before (n_of_string i) (n_of_string cp) with SRet s -> Some (Some s) | SPanic -> Some None)
              | ["truncate"; n] -> (match s_truncate before (n_of_string n) with SRet s -> Some (Some s) | SPanic -> Some None)
              | ["insert_str"; i; t] -> (match s_insert_str before (n_of_string i) (bytes_of_hex t) with SRet s -> Some (Some s) | SPanic -> Some None)
              | ["split_off"; i] -> (match s_split_off before (n_of_string i) with SRet (a, _) -> Some (Some a) | SPanic -> Some None)
